@@ -95,6 +95,7 @@ FAMILIES["solve"] = dict(SOLVE_FAMILY, rule="generated provider universes (1-8 p
     "unions incl. cross-package and repeated members, constrains incl. own package, locks, favored, exclusions, Unknown deps, missing packages, cycles, all hint patterns) "
     "in 3 shapes (general/tight/hinted), sync runtime; non-trivial = the run learnt a clause, or ended Unsolvable, or made >= 4 assignments; distinct by sha256 of the case")
 FAMILIES["soft"] = dict(SOLVE_FAMILY, rule="as `solve` plus 1-4 soft requirements drawn from all solvables (compatible, incompatible, duplicates, other versions of installed packages, excluded, locked-out, Unknown deps)")
+FAMILIES["lazy"] = dict(SOLVE_FAMILY, rule="as `solve` (general and tight shapes) but with no availability hints anywhere, locks on 1/4 of the packages and constrains on 1/2 of the solvables - the setting of C09")
 FAMILIES["conflictfree"] = dict(SOLVE_FAMILY, rule="as `solve` without locks/exclusions/Unknown/missing packages, biased to version sets matching everything, with favored candidates; "
     "non-trivial additionally requires the preferred candidates to be mutually compatible (C07 hypothesis, decided by the driver)")
 
@@ -186,7 +187,7 @@ PROPS = {
     "C09": {
         "nt_rule": "calls5",
         "level": "other", "module": "Resolvo.Props.C09", "theorems": ["Resolvo.C09.at_most_once_cache"],
-        "families": [("solve", SOLVE_Q), ("soft", SOFT_Q), ("conflictfree", CF_Q), ("cache", {"quick": 1500, "thorough": 20000})],
+        "families": [("lazy", {"quick": 4000, "thorough": 80000}), ("conflictfree", CF_Q), ("soft", SOFT_Q), ("cache", {"quick": 1500, "thorough": 20000})],
         "explanation": "PROVED: cache-level at-most-once. CHECKED PER RUN: causal order and at-most-once of the provider call log of every sync run without hints; exact call-log correspondence of SolverCache with its model.",
     },
     "C14": {
